@@ -902,3 +902,131 @@ Proof.
   - split; [intros _; now apply Hl|intros _; discriminate].
   - split; [intros H; congruence|intros H; apply Hl in H; discriminate].
 Qed.
+
+(* ------------------------------------------------------------------ ADV files *)
+
+Lemma adv_member_le l b : In b l -> (length (b_adv b) <= length (adv_ids l))%nat.
+Proof.
+  induction l as [|x l IH]; intros Hb; [destruct Hb|]. unfold adv_ids. cbn [flat_map]. rewrite app_length.
+  destruct Hb as [<-|Hb]; [unfold adv_ids_of; rewrite map_length; lia|]. specialize (IH Hb). unfold adv_ids in IH. lia.
+Qed.
+
+Section AdvFile.
+Variables (A : Arith.tables) (T : Offsets.otable) (TT : BuildIAT.ttable).
+Variables (hd : bytes -> hdrp) (sp : bytes -> stdp) (ip : bytes -> ipay) (ap : bytes -> apay).
+
+Definition created_a (x : batch) : Prop :=
+  b_kind x = Flatten.KStd /\ hd_adv (hd (b_sig x)) = true /\ exists a', create_adv TT hd ap x = Some a'.
+
+Lemma add_all_adv l : Forall created_a l ->
+  exists ss, add_all A T TT hd sp ip ap l = (ss, []) /\ length ss = length l /\ forallb sb_is_adv ss = true.
+Proof.
+  induction 1 as [|x l (Hk & Hadv & a' & Hc) _ IH].
+  - exists []. cbn. repeat split; reflexivity.
+  - destruct IH as (ss & Hss & Hlen & Hall). exists (SAdv (adv_hdr0 a') :: ss). cbn [add_all]. rewrite Hss, Hk, Hadv, Hc.
+    split; [reflexivity|]. split; [cbn [length]; now rewrite Hlen|]. cbn [forallb sb_is_adv andb]. exact Hall.
+Qed.
+
+(* an ADV file: File.Create takes the createFileADV branch; Flatten's three comparisons read
+   File.Control, which an ADV file leaves zero on both sides *)
+Theorem finish_adv inf all :
+  i_hdr_ok inf = true -> all <> [] -> Forall created_a (pre all) ->
+  i_count inf = 0 -> i_debit inf = 0 -> i_credit inf = 0 ->
+  let r := finish A T TT hd sp ip ap inf all in
+  (fst r = FOk \/ (fst r = FErrValidate /\ file_ctl_ok A (snd r) = false))
+  /\ length (af_std (snd r)) = length all /\ af_iat (snd r) = [] /\ forallb sb_is_adv (af_std (snd r)) = true.
+Proof.
+  intros Hh Hne Hc E1 E2 E3. cbv zeta. unfold finish. fold (pre all).
+  destruct (add_all_adv (pre all) Hc) as (ss & Hss & Hlen & Hadv). rewrite Hss.
+  assert (Hlen' : length ss = length all).
+  { rewrite Hlen. unfold pre. rewrite map_length. apply Permutation_length, sort_by_perm. }
+  destruct ss as [|s0 ss']; [destruct all; [congruence|discriminate]|].
+  assert (Hex : existsb sb_is_adv (s0 :: ss') = true).
+  { cbn [forallb] in Hadv. apply andb_prop in Hadv as [H0 _]. cbn [existsb]. now rewrite H0. }
+  unfold file_create_all.
+  cbn [af_opts fo_skip_all fo_allow_missing_hdr fo_allow_zero af_hdr_ok af_std af_iat negb andb].
+  rewrite Hh. cbn [negb andb]. unfold file_is_adv. cbn [af_std]. rewrite Hex. cbn [negb]. rewrite andb_false_r.
+  rewrite (adv_file_loop_all (s0 :: ss') 1 Hadv). unfold af_with.
+  cbn [af_std af_iat af_ctl af_actl zero_fctl Offsets.fc_count Offsets.fc_debit Offsets.fc_credit].
+  rewrite E1, E2, E3. cbn [Z.eqb negb].
+  match goal with |- context [file_ctl_ok A ?f] => destruct (file_ctl_ok A f) eqn:Ev end; cbn [negb fst snd af_std af_iat].
+  all: (split; [first [now left | right; split; [reflexivity|exact Ev]]|]).
+  all: rewrite renumber_s_length; split; [exact Hlen'|split; [reflexivity|]].
+  all: clear -Hadv; revert Hadv; generalize (s0 :: ss'); generalize 1.
+  all: intros q l; revert q; induction l as [|s l IH]; intros q H; cbn [renumber_s forallb]; [reflexivity|].
+  all: cbn [forallb] in H; apply andb_prop in H as [H0 H1]; rewrite (IH _ H1), andb_true_r.
+  all: destruct (sb_num s <=? 1); [destruct s; cbn [sset_num sb_is_adv] in *; assumption|assumption].
+Qed.
+
+(* FlattenBatches on a valid ADV file under the category rule, holding at most 9998 ADV entries *)
+Theorem flatten_succeeds_adv inf inp r :
+  Forall (fun b => b_kind b = Flatten.KStd /\ b_entries b = [] /\ b_adv b <> []) inp -> inp <> [] ->
+  i_hdr_ok inf = true -> i_count inf = 0 -> i_debit inf = 0 -> i_credit inf = 0 ->
+  Forall (fun p => hd_adv (hd (fst p)) = true /\ hd_ok (hd (fst p)) = true) (adv_ids inp) ->
+  cat_rule inp -> BuildIAT.zlen (adv_ids inp) <= 9998 ->
+  flatten_full_spec A T TT hd sp ip ap inf inp r ->
+  (fst r = FOk \/ (fst r = FErrValidate /\ file_ctl_ok A (snd r) = false))
+  /\ af_iat (snd r) = [] /\ forallb sb_is_adv (af_std (snd r)) = true
+  /\ exists all, r = finish A T TT hd sp ip ap inf all /\ flatten_spec inp (finalize all)
+       /\ length (af_std (snd r)) = length all /\ Forall created_a (pre all).
+Proof.
+  intros Hadv Hne Hh E1 E2 E3 Hp Hcat Hsz (order & all & Hadm & Hall & ->).
+  assert (Hs : flatten_spec inp (finalize all)) by (exists order, all; split; [exact Hadm|split; [exact Hall|reflexivity]]).
+  destruct Hadm as (Hperm & Hsorted).
+  assert (Hk : kinds_consistent inp).
+  { intros a b Ha Hb _. rewrite Forall_forall in Hadv. destruct (Hadv a Ha) as (-> & _). now destruct (Hadv b Hb) as (-> & _). }
+  assert (Hne' : Forall nonempty inp) by (eapply Forall_impl; [|exact Hadv]; intros x (_ & _ & H); now right).
+  assert (Hnd : Forall traces_nodup inp).
+  { eapply Forall_impl; [|exact Hadv]. intros x (_ & H & _). unfold traces_nodup, traces. rewrite H. constructor. }
+  destruct (flatten_conservation inp _ Hk Hs) as (P1 & P2).
+  destruct (flatten_wellformed inp _ Hnd Hne' Hs) as (Hw & _).
+  pose proof (flatten_category inp _ Hk (cat_rule_uniform inp Hcat) Hs) as Hck.
+  assert (Hcok : forallb category_ok (finalize all) = true).
+  { unfold checked in Hck. destruct (forallb category_ok (finalize all)); [reflexivity|discriminate]. }
+  assert (Hids : ids inp = []).
+  { clear -Hadv. induction Hadv as [|x l (_ & Hx & _) _ IH]; unfold ids in *; cbn [flat_map]; [reflexivity|].
+    rewrite IH. unfold ids_of. now rewrite Hx. }
+  assert (Hp' : Forall (fun p => hd_adv (hd (fst p)) = true /\ hd_ok (hd (fst p)) = true) (adv_ids (finalize all)))
+    by (eapply Permutation_Forall; [apply Permutation_sym, P2|exact Hp]).
+  assert (Hkind : Forall (fun b => b_kind b = Flatten.KStd) (pre all)).
+  { assert (Ho : Forall (fun b => b_kind b = Flatten.KStd) order).
+    { apply Forall_forall. intros b Hb. eapply Permutation_in in Hb; [|exact Hperm].
+      rewrite Forall_forall in Hadv. now destruct (Hadv b Hb). }
+    pose proof (run_P (fun b => b_kind b = Flatten.KStd) (fun m b Hm _ _ => eq_trans (consume_kind m b) Hm) order Ho) as Hr.
+    rewrite Forall_forall in Hr.
+    apply Forall_forall. intros x Hx. unfold pre in Hx. apply in_map_iff in Hx as (y & <- & Hy). cbn [sort_entries b_kind].
+    apply Hr. eapply Permutation_in; [exact Hall|]. eapply Permutation_in; [apply sort_by_perm|exact Hy]. }
+  assert (Hcr : Forall created_a (pre all)).
+  { apply Forall_forall. intros x Hx. destruct (pre_in_out all x Hx) as (y & Hy & Ky & Sy & Ey & Ay).
+    rewrite Forall_forall in Hw, Hp', Hkind. destruct (Hw y Hy) as (_ & Hnon).
+    assert (Hye : b_entries y = []).
+    { destruct (b_entries y) as [|e q] eqn:E; [reflexivity|]. exfalso.
+      assert (Hin : In (b_sig y, e) (ids (finalize all))) by (apply in_ids; [exact Hy|rewrite E; now left]).
+      eapply Permutation_in in Hin; [|exact P1]. now rewrite Hids in Hin. }
+    assert (Hya : b_adv y <> []) by (destruct Hnon as [H|H]; [congruence|exact H]).
+    destruct (b_adv y) as [|a0 q0] eqn:Ea; [congruence|]. rewrite <- Ea in *.
+    assert (Hin : In (b_sig y, a0) (adv_ids (finalize all))) by (apply in_adv_ids; [exact Hy|rewrite Ea; now left]).
+    destruct (Hp' _ Hin) as (Had & Hok). cbn [fst] in Had, Hok.
+    split; [now apply Hkind|]. split; [now rewrite <- Sy|].
+    assert (Hc : category_ok x = true).
+    { rewrite forallb_forall in Hcok. specialize (Hcok y Hy). unfold category_ok in *. now rewrite <- Ey, <- Ay. }
+    assert (Hlen : BuildIAT.zlen (b_adv x) <= 9998).
+    { rewrite <- Ay. unfold BuildIAT.zlen. pose proof (adv_member_le _ y Hy) as Hm.
+      rewrite (Permutation_length P2) in Hm. unfold BuildIAT.zlen in Hsz. lia. }
+    assert (Hsome : create_adv TT hd ap x <> None).
+    { apply create_adv_iff; try assumption; [now rewrite <- Sy|now rewrite <- Ey|now rewrite <- Ay]. }
+    destruct (create_adv TT hd ap x) as [a'|]; [now exists a'|congruence]. }
+  assert (Hall_ne : all <> []).
+  { intros ->. destruct inp as [|b0 inp']; [congruence|]. inversion Hadv as [|? ? (_ & _ & Hb0) _]; subst.
+    destruct (b_adv b0) as [|a0 q] eqn:E; [congruence|].
+    assert (Hin : In (b_sig b0, a0) (adv_ids (b0 :: inp'))) by (apply in_adv_ids; [now left|rewrite E; now left]).
+    assert (Pa : Permutation (adv_ids []) (adv_ids (b0 :: inp'))).
+    { destruct (run_ids order (kinds_consistent_perm _ _ (Permutation_sym Hperm) Hk)) as (_ & R2).
+      rewrite (adv_ids_perm _ _ Hall), R2. now apply adv_ids_perm. }
+    eapply Permutation_in in Hin; [|apply Permutation_sym, Pa]. destruct Hin. }
+  destruct (finish_adv inf all Hh Hall_ne Hcr E1 E2 E3) as (R1 & R2 & R3 & R4).
+  split; [exact R1|]. split; [exact R3|]. split; [exact R4|].
+  exists all. split; [reflexivity|]. split; [exact Hs|]. split; [exact R2|exact Hcr].
+Qed.
+
+End AdvFile.
